@@ -97,6 +97,26 @@ func (f *failBuffered) Discard(n int) (int, error) {
 	return avail, io.EOF
 }
 
+// faultSeeker fails reads that touch [From, To) once Armed.
+type faultSeeker struct {
+	R        *bytes.Reader
+	From, To int64
+	Err      error
+	Armed    bool
+}
+
+func (f *faultSeeker) Read(p []byte) (int, error) {
+	pos, _ := f.R.Seek(0, io.SeekCurrent)
+	if f.Armed && pos < f.To && pos+int64(len(p)) > f.From {
+		if pos >= f.From {
+			return 0, f.Err
+		}
+		p = p[:f.From-pos]
+	}
+	return f.R.Read(p)
+}
+func (f *faultSeeker) Seek(off int64, wh int) (int64, error) { return f.R.Seek(off, wh) }
+
 func failSrcKinds(at int) []srcKind {
 	mk := func(mode int) func([]byte, *rand.Rand) (io.Reader, func() int) {
 		return func(d []byte, _ *rand.Rand) (io.Reader, func() int) {
@@ -297,6 +317,76 @@ func runC09(r *vhlib.Run) {
 				}
 				if cls != "nil" && !isPrefix(out, plain) && m%2 == 0 {
 					r.Violate("truncation-wrong-byte", "xflate", rp)
+				}
+			}()
+		}
+	}
+	// xflate.Reader: a fault or corruption inside a chunk, reached by Seek into the
+	// middle of that chunk (the skip-ahead path) and by sequential reading
+	for i := 0; i < nValid; i++ {
+		data := vhlib.RandBytes(rng, 3000+rng.Intn(3000))
+		sink, _, ok := makeXFStream(xwCfg{Level: []int{-1, 1, 6}[rng.Intn(3)], ChunkSize: 1000, Index: 4}, []xwOp{{Kind: 'w', Data: data}, {Kind: 'c'}})
+		if !ok {
+			continue
+		}
+		for m := 0; m < 12; m++ {
+			// choose a raw position, damage the compressed stream somewhere before the
+			// end of the chunk holding it
+			target := int64(rng.Intn(len(data)))
+			dmg := rng.Intn(len(sink) * 2 / 3)
+			bad := append([]byte{}, sink...)
+			var src io.ReadSeeker
+			kind := "corrupt-byte"
+			if m%2 == 0 {
+				bad[dmg] ^= 1 << uint(rng.Intn(8))
+				src = bytes.NewReader(bad)
+			} else {
+				kind = "source-fault"
+				src = &faultSeeker{R: bytes.NewReader(sink), From: int64(dmg), To: int64(dmg + 1 + rng.Intn(50)), Err: &vhlib.SentinelErr{Tag: 7}}
+			}
+			rp := map[string]interface{}{"codec": "xflate", "stream": vhlib.Hex(sink), "damage_at": dmg, "kind": kind, "seek_to": target}
+			r.Eval("xflate-seek-"+kind, true, sink, []byte(fmt.Sprint(dmg, target, m)))
+			func() {
+				defer func() {
+					if p := recover(); p != nil {
+						r.Violate("panic", fmt.Sprint(p), rp)
+					}
+				}()
+				xr, err := xflate.NewReader(src, nil)
+				if err != nil {
+					if !allowedReaderClasses[vhlib.ErrClass(err)] && vhlib.ErrClass(err) != "Src7" {
+						r.Violate("error-class", "xflate open: "+vhlib.ErrClass(err), rp)
+					}
+					return
+				}
+				if fs, ok := src.(*faultSeeker); ok {
+					fs.Armed = true
+				}
+				if _, err := xr.Seek(target, io.SeekStart); err != nil {
+					return
+				}
+				buf := make([]byte, 700)
+				var first error
+				for k := 0; k < 12 && first == nil; k++ {
+					_, first = xr.Read(buf)
+				}
+				if first == nil || first == io.EOF {
+					return // the damage was not on the path
+				}
+				cls := vhlib.ErrClass(first)
+				if !allowedReaderClasses[cls] && cls != "Src7" {
+					r.Violate("error-class", "xflate: "+cls, rp)
+				}
+				if kind == "source-fault" && cls != "Src7" && cls != "Corrupted" && cls != "UEOF" {
+					r.Violate("source-error-not-verbatim", "xflate: "+cls, rp)
+				}
+				for k := 0; k < 2; k++ {
+					if n, e2 := xr.Read(buf); n != 0 || e2 != first {
+						r.Violate("contract", fmt.Sprintf("xflate: after %v a later Read returned (%d, %v)", first, n, e2), rp)
+					}
+				}
+				if ce := xr.Close(); ce == nil {
+					r.Violate("contract", fmt.Sprintf("xflate: Close after %v returned nil", first), rp)
 				}
 			}()
 		}
